@@ -1,17 +1,22 @@
 SPECIFICATION Spec
 CONSTANTS
-  N = 3
+  N = 2
   Kinds <- K_all
-  TKs <- TK_small
+  TKs <- TK_quick
   AllowList = TRUE
   AllowNSkip = TRUE
   AllowVSkip = TRUE
   AllowReturn = TRUE
   AllowMoved = TRUE
+  AllowHost = FALSE
+  AllowRename = TRUE
   MaxFunctions = 1
   Stepwise = FALSE
+  AliasRecheck = TRUE
+  CallableWalks = 2
+  RenameScopeCheck = TRUE
   COrder = FALSE
-  Orders <- Id3
+  Orders <- Id2
   KnownShapes <- Known_any
   ExportViol = 1
   ExportOk = 499
